@@ -71,6 +71,10 @@ def items(tier, seed):
         for warm, cap in combos:
             for ch in chunks(learn_scripts, per):
                 out.append(dict(name=f"learn-{name}-w{warm}-cap{cap}-{ch[0]}", kind="off", routine=name, mode="learn", cap=cap, warm=warm, scripts=ch, seed=seed))
+    # MR.Q creating its replay buffer itself (non-default horizon pairs): every learning window it could draw
+    from vlib import mrq_windows
+
+    out += mrq_windows.item_specs(tier, seed)
     # on-policy collectors
     ep_scripts = [s + "T" for s in (senv.scripts(T - 1, "cTU", 2) if q else senv.scripts(T - 1, "cTU"))]
     for disc in (False, True):
@@ -648,6 +652,10 @@ def work(item, col):
     k = item["kind"]
     if k == "tabular-readback":
         return readback_item(item, col)
+    if k == "mrq-own-buffer":
+        from vlib import mrq_windows
+
+        return mrq_windows.work_item(item, col, lambda kind: SIG.format("train_mrq", kind))
     if k == "off":
         return off_item(item, col)
     if k == "reinforce":
